@@ -1,4 +1,4 @@
 From Coq Require Import Extraction ExtrOcamlBasic.
-From SqfsV Require Import C08.DedupModel.
-Extraction "c08_model.ml" pack read_back toy_compress toy_uncompress toy_hash
+From SqfsV Require Import C08.DedupModel C08.DedupTheorems.
+Extraction "c08_model.ml" pack read_back toy_compress toy_uncompress toy_hash half_scratch
   p_wr p_nfrag p_ftab p_start p_size p_nwords p_frag p_evs w_file.
